@@ -174,7 +174,7 @@ func checkCmd(argv []string) int {
 			}
 		}
 	}
-	timeout := 10
+	timeout := 30
 	if *tier == "thorough" {
 		timeout = 120
 	}
@@ -236,7 +236,7 @@ func checkCmd(argv []string) int {
 	if *update {
 		ne := &Expected{Property: *prop, Obligations: map[string]string{}}
 		for _, r := range rows {
-			if r.Status == "unsat" && r.Ms <= int64(timeout)*1000/2 {
+			if r.Status == "unsat" && r.Ms <= 6000 { // claim only what discharges well under the quick timeout
 				ne.Obligations[r.Name] = "proved"
 			}
 		}
@@ -453,7 +453,7 @@ func contractMentions(P *Program, ct *Contract, hasTag func(string) bool) bool {
 		}
 		return false
 	}
-	if cl(ct.Requires) || cl(ct.Ensures) || cl(ct.Modifies) || hasTag(ct.FrameTag) || hasTag(ct.Safety) {
+	if cl(ct.Requires) || cl(ct.Ensures) || cl(ct.Claims) || cl(ct.Modifies) || hasTag(ct.FrameTag) || hasTag(ct.Safety) {
 		return true
 	}
 	for _, is := range ct.Invs {
